@@ -136,6 +136,8 @@ def check_C11(tier, replay=None):
     if tier == "quick":
         runs.append(("MC_C11_f3", {"File": F3, "FileSeq": "<- FileSeq3", "Extras": "<- NoExtras", "Siblings": "<- Sib3", "MaxCalls": "2", "RefsOn": "FALSE"}))
         runs.append(("MC_C11_f3refs", {"File": F3, "FileSeq": "<- FileSeq3", "Extras": "<- NoExtras", "Siblings": "<- NoSib", "MaxCalls": "1", "RefsOn": "TRUE"}))
+        F2 = '{"f1.xsd","f2.xsd"}'
+        runs.append(("MC_C11_f2x", {"File": F2, "FileSeq": "<- FileSeq2", "Extras": "<- AllExtras", "Siblings": "<- NoSib", "MaxCalls": "2", "RefsOn": "FALSE"}))
         runs.append(("MC_C11_f3samens", {"File": F3, "FileSeq": "<- FileSeq3", "Extras": "<- NoExtras", "Siblings": "<- NoSib", "MaxCalls": "1", "RefsOn": "FALSE", "SameNs": "TRUE"}))
         runs.append(("MC_C11_f4dagrefs", {"File": F4, "FileSeq": "<- FileSeq4", "Extras": "<- NoExtras", "Siblings": "<- NoSib", "MaxCalls": "1", "RefsOn": "TRUE", "_spec": "MCSpecDag"}))
     else:
